@@ -730,8 +730,9 @@ def leaf_test_agreement(prog: Program, rep, rule: str):
         TypeArg("builtins.object"),
         TypeArg("builtins.Ellipsis"),
     ]
+    documented = {"collections.abc.Callable", "typing.Callable", "typing.Any", "builtins.object", "builtins.Ellipsis", "re.Match", "typing.TypeVar"}
     for a in catalogue():
-        if a.flags or a.subscripted:
+        if a.flags or a.subscripted or a.cls in documented:
             continue
         v = pe.accepts(pred, a)
         n += 1
